@@ -21,7 +21,8 @@ class LimitedStringIO(StringIO):
 
     def write(self, __s: str) -> int:  # noqa: D102
         if __s:
-            self.size += len(__s.encode("utf-8"))
+            # (A lone surrogate in the data is not valid UTF-8. It counts as encoded.)
+            self.size += len(__s.encode("utf-8", "surrogatepass"))
             if self.size > self.limit:
                 raise OutputStreamLimitError("output stream limit reached", token=None)
         return super().write(__s)
